@@ -222,7 +222,7 @@ def _oracle_c07_one(tr, put_step, complete_expected=False):
             raise Failure(f"C07 EOF PDU wrong: cond {e['cond']} size {e['fsize']} checksum {e['cksum'].hex()} "
                           f"(file size {size}, expected checksum {want.hex() if want else None})")
         if eofs[0][2] > remote["max_packet"]:
-            raise Failure(f"F19 EOF PDU of {eofs[0][2]} bytes exceeds max_packet_len {remote['max_packet']}")
+            raise Failure(f"C07 [fixed finding F19 is back] EOF PDU of {eofs[0][2]} bytes exceeds max_packet_len {remote['max_packet']}")
 
 
 def nominal_source_case(cfg: Cfg, data, ncalls=None, tag="c07"):
